@@ -13,6 +13,9 @@ Per generated grammar G and EVERY string w up to length n over G's alphabet (+ o
                            the small fuel (Lb = false is not a proof of non-membership)
   kind 3 (hypothesis):     forest_totalb holds on the chart of every EarleyParser.parse case (the
                            run-time-checked hypothesis of theorem C10_parse_sound_partial)
+  stateful stream (mode 3): per grammar ONE EarleyParser object, groups of 2-3 accepted inputs, one lazy
+                           parse() generator each, trees pulled round-robin; each generator's outcome goes
+                           through kinds 0 and 1 like a fresh parse of its input
   python reference (all cases): accept <-> w in L(G, nt) by an independent least-fixpoint
                            recogniser; trees checked again by a python transcription of wf_tree.
 The model mirrors the two recorded defects (K_multistart, K_recstart) in pinned and repaired form;
@@ -332,6 +335,49 @@ def impl_parse(g, w, nt=None):
         return ("raise", lib.exn_name(e))
 
 
+def impl_interleaved(parser, group):
+    """ONE EarleyParser object, one lazy parse() generator per input of `group`, all open at the same time;
+    trees are pulled round-robin (first tree of w1, first of w2, ..., second of w1, ...).
+    Result: per input the outcome ('ok', first <=8 trees) | ('raise', kind), as for a fresh parser."""
+    gens = [parser.parse(w) for w in group]
+    out = [("ok", []) for _ in group]
+    live = [True] * len(group)
+    for _ in range(MAXTREES):
+        for i, gen in enumerate(gens):
+            if not live[i]:
+                continue
+            try:
+                out[i][1].append(next(gen))
+            except StopIteration:
+                live[i] = False
+            except Exception as e:      # the outcome is the observable
+                live[i] = False
+                out[i] = ("raise", lib.exn_name(e)) if not out[i][1] else ("raise_after_trees", lib.exn_name(e))
+    for gen in gens:
+        gen.close()
+    return out
+
+
+def interleave_groups(cases, rng, ngroups):
+    """groups of 2-3 distinct accepted inputs of EarleyParser.parse, an ambiguous one first, preferably of
+    the same length (a stale chart of another length mostly crashes, one of the same length silently lies)"""
+    acc = [(w, o) for (mode, nt, w, o) in cases if mode == 0 and o[0] == "ok"]
+    amb = [w for w, o in acc if len(o[1]) > 1]
+    allw = [w for w, _ in acc]
+    groups = []
+    firsts = amb[:] if amb else allw[:]
+    rng.shuffle(firsts)
+    for w1 in firsts:
+        if len(groups) >= ngroups:
+            break
+        same = [w for w in allw if w != w1 and len(w) == len(w1)]
+        other = [w for w in allw if w != w1 and len(w) != len(w1)]
+        rest = (rng.sample(same, min(2, len(same))) + rng.sample(other, min(1, len(other))))[:2]
+        if rest:
+            groups.append([w1] + rest)
+    return groups
+
+
 def impl_solver_parse(solver, w, nt):
     try:
         t = solver.parse(w, nt, skip_check=True, silent=True)
@@ -498,7 +544,9 @@ def run(run):
         "strings of the next length; inputs more than one character longer than the first input that reaches the cap of 8 "
         "trees are dropped (the model enumerates all trees); + strings with a "
         "foreign character + up to 6 random MEMBERS of the language that are up to 3 characters longer than the exhaustive "
-        "bound. Entry points: EarleyParser.parse (all strings), EarleyParser.parse_on(w, nt) for every other nonterminal and "
+        "bound. Entry points: EarleyParser.parse on a fresh parser (all strings) AND statefully: one parser object per grammar "
+        "reused, 2-3 lazy parse() generators of accepted (preferably ambiguous, same-length) inputs open at once and pulled "
+        "round-robin, every outcome compared with the model's tree list for its own input; EarleyParser.parse_on(w, nt) for every other nonterminal and "
         f"ISLaSolver.parse(w, nt, skip_check=True) for every nonterminal (length <= {3 if thorough else 2}). Compared: exception "
         "kind / ordered list of the first <= 8 trees; EVERY returned tree is checked for wf_treeb, closedness, root label and "
         "yield t = input (in Coq) and again by the python reference. non-trivial = string of length >= 1 whose membership "
@@ -516,7 +564,7 @@ def run(run):
             "list_grammars": 0, "corpus_grammars": 0, "trees_checked_yield": 0,
             "solver_nt_skipped_cyclic_after_override": 0, "fuel_capped_grammars": 0,
             "theorem_guard_evaluated": 0, "theorem_guard_false_cyclic_or_capped": 0,
-            "words_skipped_ambiguity_cap": 0}
+            "words_skipped_ambiguity_cap": 0, "stateful_interleaved_mode": 0}
     state = {"maxlen_seen": 0, "coq_seconds": 0.0, "batches": 0, "max_shard_bytes": 0}
     prop_failures = []
     disagreements, spec_fail_coq, forest_fail, guard_fail, guard_unexplained = [], [], [], [], []
@@ -528,6 +576,7 @@ def run(run):
         "| 0 => res_eqb (list_eqb tree_eqb) r "
         f"   (match mode with 0 => earley_parse {FX} FUEL G START START w 8 "
         f"    | 1 => earley_parse {FX} FUEL G START nt w 8 "
+        f"    | 3 => earley_parse {FX} FUEL G START START w 8 "
         f"    | _ => match solver_parse {FX} FUEL G nt w with Ok t => Ok [t] | Raise e => Raise e end end) "
         "| 1 => match r with "
         "       | Ok ts => negb (match ts with [] => true | _ => false end) && "
@@ -623,6 +672,20 @@ def run(run):
                             continue
                         cases.append((2, nt, w, impl_solver_parse(solver, w, nt)))
                         hist["solver_mode"] += 1
+        # STATEFUL stream (mode 3): one parser object reused, several lazy parse() generators open at once and
+        # pulled alternately; every outcome must again be the model's tree list for ITS input
+        groups_of = {}
+        try:
+            shared = EarleyParser(g)
+        except Exception:
+            shared = None
+        if shared is not None:
+            for group in interleave_groups(cases, rng, 8 if thorough else 4):
+                for w, o in zip(group, impl_interleaved(shared, group)):
+                    groups_of[len(cases)] = group
+                    cases.append((3, START, w, o if o[0] != "raise_after_trees" else ("raise", o[1])))
+                    hist["stateful_interleaved_mode"] += 1
+            del shared
         # membership profile per start symbol (for the non-trivial rule)
         prof = {}
         for (mode, nt, w, o) in cases:
@@ -645,7 +708,8 @@ def run(run):
             if why:
                 prop_failures.append({"grammar": g, "mode": mode, "nonterminal": nt, "input": w,
                                       "impl": [o[0], [jt(t) for t in o[1]] if o[0] == "ok" else o[1]],
-                                      "why": why, "_cg": cg, "_o": o})
+                                      "why": why, "_cg": cg, "_o": o,
+                                      **({"interleaved_inputs": groups_of[ci]} if ci in groups_of else {})})
         n_max = max(len(c[2]) for c in cases)
         hist["fuel_capped_grammars"] += fuel_uncapped(cg, n_max) > FUEL_CAP
         gc_ = {}
@@ -655,11 +719,11 @@ def run(run):
         hist["theorem_guard_evaluated"] += len(gc_)
         if gi in (0, 2, 21):
             k = next((c for c in cases if c[3][0] == "ok" and len(c[2]) >= 2), cases[0])
-            run.sample({"grammar": g, "mode": ["parse", "parse_on", "ISLaSolver.parse"][k[0]], "nonterminal": k[1],
+            run.sample({"grammar": g, "mode": ["parse", "parse_on", "ISLaSolver.parse", "parse (shared parser, interleaved)"][k[0]], "nonterminal": k[1],
                         "input": k[2], "impl": [jt(t) for t in k[3][1]] if k[3][0] == "ok" else k[3][1],
                         "cases_for_this_grammar": len(cases)})
         del solver
-        return {"g": g, "cg": cg, "cases": cases, "n_max": n_max, "guard": gc_,
+        return {"g": g, "cg": cg, "cases": cases, "n_max": n_max, "guard": gc_, "groups_of": groups_of,
                 "gdef": (g_grammar(cg), fuel_for(cg, n_max), min(7, len(cg) + 3), lits)}
 
     def build_shards(metas, nsh):
@@ -706,7 +770,8 @@ def run(run):
             g, cg = m["g"], m["cg"]
             mode, nt, w, o = m["cases"][ci]
             rec = {"grammar": g, "mode": mode, "nonterminal": nt, "input": w,
-                   "impl": [o[0], [jt(t) for t in o[1]] if o[0] == "ok" else o[1]], "_cg": cg, "_o": o, "coq_kind": kind}
+                   "impl": [o[0], [jt(t) for t in o[1]] if o[0] == "ok" else o[1]], "_cg": cg, "_o": o, "coq_kind": kind,
+                   **({"interleaved_inputs": m["groups_of"][ci]} if ci in m["groups_of"] else {})}
             if kind == 4:
                 # a false guard is expected only for a grammar with a cyclic unit/nullable derivation
                 # (corpus witnesses) or a capped fuel
@@ -833,7 +898,11 @@ def replay(path):
         print("replay file names an obligation, not an input:", d.get("obligation")); return 1
     g, nt, inp, mode = w["grammar"], w["nonterminal"], w["input"], w.get("mode", 0)
     cg = {k: [list(a) for a in v] for k, v in canonical(g).items()}
-    if mode == 2:
+    if mode == 3:
+        group = w["interleaved_inputs"]
+        o = impl_interleaved(EarleyParser(g), group)[group.index(inp)]
+        o = o if o[0] != "raise_after_trees" else ("raise", o[1])
+    elif mode == 2:
         o = impl_solver_parse(ISLaSolver(g), inp, nt)
     else:
         o = impl_parse(g, inp, None if mode == 0 else nt)
